@@ -298,7 +298,9 @@ Definition c20_class (ec : ecase) : option N :=
   if g && c06_blocked (ec_cfg ec) (ec_pers ec) then None
   else match c_first (ec_cfg ec) with
        | Some _ => Some 1
-       | None => if g && c06_blocked_weak (ec_cfg ec) (ec_pers ec) then Some 2 else Some 0
+       | None => if g && c06_blocked_weak (ec_cfg ec) (ec_pers ec) then Some 2
+                 else if has_node (ec_app ec) [] then Some 3 (* K-C20-anon: code stored under the empty symbol *)
+                 else Some 0
        end.
 Definition engine_violations_c20 (cs : list ecase) : list (N * N) := classify c20_class 0 cs.
 
